@@ -8,9 +8,13 @@ data and finalize=True / False (re-using the caller's data when it is still aliv
 (already finalized) data, next, seek (valid / out of range), set_render_size, close (again), drop the
 reference + gc, the caller finalizing its own data (twice).
 
+Also: every entry point with render arguments of an unrelated render class (must fail without leaking data).
+
 Faults are not bounded by a global index k: a fault is a *choice at the operation* ("the j-th `_render_`
 / `_get_render_data_` call made inside this operation raises X", j over every call the operation makes;
-"the size validation of this draw fails" = the terminal is too small while it runs), with a budget of 1
+"the size validation of this draw fails" = the terminal is too small while it runs; "the j-th terminal-size
+query of `_init_render_` raises OSError / KeyboardInterrupt"; with stdout_faults: "the j-th write / flush / sleep
+of this draw on the virtual stdout fails, instead of or after taking effect", closing sequence included), with a budget of 1
 (quick) / 2 (thorough) faults per history.  Since the search runs to the fixpoint, every global position
 k of the fault in every history is covered.  X in {RenderError, StopIteration, AttributeError,
 KeyboardInterrupt} (thorough: + ValueError, SystemExit).  Configurations: definite 2 / 3 / 4 frames,
@@ -49,6 +53,7 @@ LEVEL = "model_checking"
 
 _CTX = None
 _FROZEN = False
+_TTY = {}
 MAX_STATES = 60000      # the unchanged tree needs < 4k states per configuration
 _DEBUG = bool(__import__("os").environ.get("VERIF_DEBUG"))
 TERM = (6, 5)
@@ -62,7 +67,7 @@ def exc_of(name):
     if name == "RenderError":
         return world.load().renderable.RenderError("injected")
     return {"StopIteration": StopIteration, "AttributeError": AttributeError, "ValueError": ValueError,
-            "KeyboardInterrupt": KeyboardInterrupt, "SystemExit": SystemExit}[name]("injected")
+            "KeyboardInterrupt": KeyboardInterrupt, "SystemExit": SystemExit, "OSError": OSError}[name]("injected")
 
 
 def fault_sig(fault):
@@ -96,7 +101,17 @@ class Scn:
         self.cfg = cfg
         self.stdout = world.VStdout(None, cfg.get("tty", True), None, record=False)
         self.clock = world.VClock(self.stdout)
-        self.tty = world.setup("other", *TERM, stdout=self.stdout, clock=self.clock)
+        # one virtual tty per process (no operation here touches library-wide settings); a fresh virtual
+        # stdout / clock per history
+        tty = _TTY.get("tty")
+        if tty is None or world.W.tty is not tty:
+            tty = _TTY["tty"] = world.setup("other", *TERM, stdout=self.stdout, clock=self.clock)
+        else:
+            tty.cols, tty.rows = TERM
+            tty.ncalls = 0
+            tty.attrs = world.default_attrs()
+            world.install(tty, self.stdout, self.clock)
+        self.tty = tty
         n = cfg["n"]
         if isinstance(n, str):
             self.r = lb["ns"].make(R.FrameCount.INDEFINITE, M.SIZE0, 100, stream_len=int(n[1:]))
@@ -111,14 +126,14 @@ class Scn:
                                     #   owner= "caller" | generation of the owning iterator, caller_fin=bool)
         self.budget = cfg["faults"]
         self.fired = False
-        self.calls = (0, 0, 0)
+        self.calls = (0, 0, 0, 0)
 
     # ---------------------------------------------------------------- fault plumbing
     def arm(self, fault):
         r = self.r
         br, bg = r.n_render, r.n_getdata
         self.fired = False
-        if fault is None or fault[0] in ("validate", "stdout"):
+        if fault is None or fault[0] in ("validate", "stdout", "termsize"):
             r.fault = None
             return
 
@@ -166,6 +181,20 @@ class Scn:
         if fault is not None and fault[0] == "stdout":     # the j-th write / flush / sleep of this operation fails
             self.stdout.plan = world.FaultPlan(k=p0 + fault[1], mode=fault[2],
                                                exc={"KeyboardInterrupt": KeyboardInterrupt, "OSError": OSError}[fault[3]])
+        # the terminal-size query of `_init_render_` (module global of _renderable) is a fault point too:
+        # patched around the operation only
+        RM = lb["L"]._renderable
+        real_gts = RM.get_terminal_size
+        ncalls = [0]
+
+        def gts():
+            ncalls[0] += 1
+            if fault is not None and fault[0] == "termsize" and ncalls[0] == fault[1] and not self.fired:
+                self.fired = True
+                raise exc_of(fault[2])
+            return real_gts()
+
+        RM.get_terminal_size = gts
         out = ("ok",)
         try:
             if k == "render":
@@ -261,13 +290,14 @@ class Scn:
                 self.it_state = "closed" if isinstance(e, Exception) else "zombie"
             del e
         finally:
+            RM.get_terminal_size = real_gts
             r.fault = None
             if fault is not None and fault[0] == "validate":
                 self.tty.cols, self.tty.rows = TERM
             if fault is not None and fault[0] == "stdout":
                 self.fired = self.stdout.plan.fired
                 self.stdout.plan = None
-        self.calls = (r.n_render - r0, r.n_getdata - g0, self.stdout.npoints - p0)
+        self.calls = (r.n_render - r0, r.n_getdata - g0, self.stdout.npoints - p0, ncalls[0])
         # data objects the library created inside this operation
         for i in range(n0, len(r.datas)):
             if k == "iter":
@@ -391,16 +421,19 @@ def ops_of(cfg):
     return ops
 
 
-def fault_variants(op, calls, excs, stdout_faults=False):
+def fault_variants(op, calls, excs, stdout_faults=False, modes=("instead", "after")):
     """Every fault position inside *op* given the calls its fault-free run made."""
     out = []
-    nr, ng, npoints = calls
+    nr, ng, npoints, nts = calls
     if op[0] == "badargs":
         return out
+    for j in range(1, nts + 1):            # the j-th terminal-size query of the operation fails
+        for x in ("OSError", "KeyboardInterrupt"):
+            out.append(("termsize", j, x))
     if stdout_faults and op[0] in ("draw", "drawa", "drawx"):
         # every write / flush / sleep of the draw, the closing sequence in its `finally` included
         for j in range(1, npoints + 1):
-            for mode in ("instead", "after"):
+            for mode in modes:
                 for x in ("KeyboardInterrupt", "OSError"):
                     out.append(("stdout", j, mode, x))
     for j in range(1, ng + 1):
@@ -469,7 +502,8 @@ def explore_cfg(col, cfg):
                 if first:
                     first = False
                     if budget > 0 and viol is None:
-                        variants = fault_variants(op, s2.calls, excs, cfg.get("stdout_faults", False))
+                        variants = fault_variants(op, s2.calls, excs, cfg.get("stdout_faults", False),
+                                                  cfg.get("stdout_modes", ("instead", "after")))
                 case = dict(cfg=cfg, history=[[list(o), None if f is None else list(f)] for o, f in h],
                             op=list(op), fault=None if fault is None else list(fault))
                 if viol is not None:
@@ -496,7 +530,9 @@ def configs(tier):
     out = []
     if tier == "quick":
         out.append(dict(n=2, faults=1, excs=list(EXCS)))
-        out.append(dict(n=2, faults=1, excs=[], stdout_faults=True))       # only stdout / validation faults
+        # only stdout / terminal-size / validation faults (split by mode for load balance)
+        out.append(dict(n=2, faults=1, excs=[], stdout_faults=True, stdout_modes=["instead"]))
+        out.append(dict(n=2, faults=1, excs=[], stdout_faults=True, stdout_modes=["after"]))
         out.append(dict(n="I2", faults=1, excs=list(EXCS)))
         out.append(dict(n=3, faults=0, excs=[], rich=True))
         out.append(dict(n=1, faults=1, excs=list(EXCS), rich=True, stdout_faults=True))
@@ -572,6 +608,7 @@ def run(ctx):
         operations=[list(o) for o in ops_of(dict(rich=True))],
         fault_kinds=["k-th _render_ inside the operation", "k-th _get_render_data_ inside the operation",
                      "size validation of draw (terminal 1x1)",
+                     "k-th terminal-size query of _init_render_ inside the operation (OSError / KeyboardInterrupt)",
                      "k-th write / flush / sleep of a draw on the virtual stdout, instead / after, KeyboardInterrupt / "
                      "OSError (configurations with stdout_faults)"],
         exceptions=list(EXCS if ctx.tier == "quick" else EXCS_MORE),
